@@ -782,6 +782,46 @@ def run(chk):
     chk.oracle('unresolvable_raises_value_error', junk + rnd[:: (2 if not big else 1)], o_value_errors,
                nontrivial_fn=lambda t: True, key_fn=repr)
 
+    # history / aliasing (harness/statecheck_c15.py): a resolver answer must not depend on what a caller did with an earlier
+    # answer, nor on the calls made before
+    from .. import statecheck_c15 as SC
+    hist = SC.History()
+    nstate = 300 if not big else 3000
+    sstrings = [rng.choice(sp_cases)[2] for _ in range(nstate)] + ['Acetyl', 'U:1', 'MOD:00046', 'X:01000', 'Glycan:Hex2HexNAc',
+                                                                   'Formula:C6H12O6', 'Formula:[13C2]H4', 'Glycan:Hex1Hex2']
+    sstrings += [s for s in rnd[:nstate] if '|' not in s]
+    iso_cases = []
+    mix_cases = []
+    for t in dict.fromkeys(sstrings):
+        refs = [['mod_comp', [t]], ['mod_mass', [t, True]], ['mod_mass', [t, False]]]
+        others = [['mod_comp', [t + '#g1']], ['mod_mass', [t + '|INFO:x', True]], ['mod_comp', [t + '|Obs:+1']]]
+        if t.lower().startswith('formula:') and ':' not in t[8:]:
+            f = t[8:]
+            others += [['parse_chem_formula', [f, '']], ['apply_isotope_mods_to_composition', [f, ['13C']]], ['chem_mass', [f, True, '']]]
+        if t.lower().startswith('glycan:') and ':' not in t[7:]:
+            others += [['glycan_comp', [t[7:]]], ['glycan_mass', [t[7:], True]], ['parse_glycan_formula', [t[7:], '']]]
+        iso_cases.append(refs[0])
+        mix_cases.append((refs, others))
+
+    def o_isolation(call):
+        r = SC.isolation(call, hist)
+        return None if r is None else json.dumps(r, default=str)
+
+    def o_interleave(c):
+        r = SC.interleave(rng, c[0], c[1], hist, steps=4)
+        return None if r is None else json.dumps(r, default=str)
+
+    chk.oracle('result_isolation', iso_cases, o_isolation, nontrivial_fn=lambda c: True, key_fn=lambda c: json.dumps(c, default=str))
+    chk.oracle('interleaved_calls', mix_cases, o_interleave, nontrivial_fn=lambda c: True,
+               key_fn=lambda c: json.dumps(c[0][0], default=str))
+    try:
+        late = hist.recheck_in_process(300 if not big else 2000) + hist.compare_with_fresh_process(rng, 300 if not big else 2000)
+    except RuntimeError as e:
+        raise core.InfraError(str(e))
+    chk.oracle('whole_run_history', late, lambda it: None if it[1] is None else json.dumps(it[1], default=str),
+               nontrivial_fn=lambda it: True, key_fn=lambda it: json.dumps(it[0], default=str))
+    lap('oracle state')
+
     chk.oracle('generic_forms', corpus_generic + gcases, o_generic, nontrivial_fn=lambda c: True, key_fn=repr)
     lap('oracle generic')
     rep = reach.stop()
